@@ -786,7 +786,10 @@ def prove_perform_callback(src_root, ex: Explorer):
 
 def prove_on_peer_accepted(src_root, ex: Explorer):
     """C02.on_peer_accepted.isolation: a bad first frame closes the accepted connection only."""
-    outcomes = ['MessageDeserializationError', 'ConnectionReadError', 'none', 'unexpected-message']
+    # 'silent-peer': a first frame that never completes (length-lying / truncated).  The read timeout of the connection ends it as a read
+    # error (C02._read.contract); IF the handler bounds the wait with a timeout block of its own, THAT expiry ends the wait instead - as a
+    # TimeoutError the handler has to deal with
+    outcomes = ['MessageDeserializationError', 'ConnectionReadError', 'none', 'unexpected-message', 'silent-peer']
 
     def path(ctx: Ctx):
         it = mk_total_interp(src_root, ctx, prim_contracts=False)
@@ -810,7 +813,9 @@ def prove_on_peer_accepted(src_root, ex: Explorer):
                     disc.append(s)
                     s.attrs['_is_closing'] = True
                     return None
-                if oc == 'ConnectionReadError':
+                if oc == 'silent-peer' and it3.aio.timeout_depth > 0:
+                    it3.throw('TimeoutError')
+                if oc in ('ConnectionReadError', 'silent-peer'):
                     disc.append(s)
                     s.attrs['_is_closing'] = True
                     raise PyRaise(ExcVal(cls(it3, 'exceptions', 'ConnectionReadError'), ('read',)))
@@ -987,7 +992,7 @@ def items(src_root, tier):
     out += [('array', t) for t in elem_types()]
     out += [('msg', q) for q in sorted(LAYOUT['messages'])]
     out += [('dispatch', d) for d in DISPATCHERS]
-    out += [('dispatch-history', None), ('decode-state', None)]
+    out += [('dispatch-history', None), ('decode-state', None), ('finalize-relies', None)]
     out += [('obf', None), ('conn', 'decode'), ('conn', 'framing'), ('conn', 'read'), ('conn', 'loop'),
             ('conn', 'accepted'), ('conn', 'receive-object'), ('handlers', None)]
     return out
@@ -1013,6 +1018,13 @@ def run_item(src_root, item, tier):
             prove_dispatch_history_free(src_root, ex)
         elif kind == 'decode-state':
             scan_decode_state(src_root, ex)
+        elif kind == 'finalize-relies':
+            # an initialised connection of ANY announced type gets its reader (otherwise nobody notices its close): C11.finalize[*]
+            from contracts import C11
+            C11.prove_finalize(src_root, ex)
+            for ob in ex.obligations:
+                if ob.name.startswith('C11.finalize'):
+                    ob.name = 'C02.initialised-connection-is-read' + ob.name[len('C11.finalize'):]
         elif kind == 'obf':
             prove_obf_total(src_root, ex)
         elif kind == 'conn':
